@@ -33,6 +33,13 @@
     `Top.all_routes_agree`              naive Gauss, M4RI, PLUQ-based and hybrid all return `(A.rref, A.rank)` when `full`
   What is tied by correspondence only (not by proof) is, as for every model function, that the mirrors are the C code
   (bit-for-bit differential runs), and `switch` stands for the C density test (any value is covered).
+  EXECUTABLE TOP LEVEL (M4ri/EchelonTop.lean, M4riProofs/EchelonTop.lean): `ET.echelonizeM4riTop L1 L2 L3 A full k heuristic threshold`
+  is the exact mirror of `_mzd_echelonize_m4ri` for EVERY k >= 0 (k = 0: `autoK`, the repaired cache rule, proved >= 1), with the
+  real floating-point density test (`_mzd_density` mirrored incl. its sampling quirks) and the real PLUQ-based routine; `ET.echelonize`
+  = `mzd_echelonize`, `ET.echelonizeM4ri` = `mzd_echelonize_m4ri`. They are compared BIT FOR BIT with the library on every check
+  (also non-reduced outputs) under the cache sizes of the build under test, and the universal theorems are instantiated at them
+  (`echelonizeM4riTop_correct`, `…_full_eq`, `all_entry_points_agree`); nothing about `Float` is assumed — correctness holds for
+  every switch function (`echelonizeM4riTop_switch_irrelevant`).
 -/
 import M4riProofs.Gauss
 import M4riProofs.GaussMathlib
@@ -40,6 +47,7 @@ import M4riProofs.M4riElim
 import M4riProofs.PleNaive
 import M4riProofs.MathlibSpec
 import M4riProofs.Top
+import M4riProofs.EchelonTop
 namespace M4ri.Props.C02
 open M4ri M4ri.BMat
 
@@ -179,5 +187,20 @@ theorem C02_full_hybrid (L1 L2 L3 : Nat) (switch : Nat → Nat → BMat → Bool
 #check @M4ri.BMat.G2.echelonizeHybrid_full_eq
 #check @M4ri.BMat.G2.echelonizePluq_full_eq
 #check @M4ri.BMat.G2.goodPluqEch_of_goodPle
+
+#check @M4ri.BMat.ET.echelonizeWith_correct
+#check @M4ri.BMat.ET.echelonizeM4riTop_correct
+#check @M4ri.BMat.ET.echelonizeM4riTop_full_eq
+#check @M4ri.BMat.ET.echelonizeM4riTop_switch_irrelevant
+#check @M4ri.BMat.ET.echelonize_correct
+#check @M4ri.BMat.ET.echelonize_full_eq
+#check @M4ri.BMat.ET.echelonizeM4ri_correct
+#check @M4ri.BMat.ET.echelonizeM4ri_full_eq
+#check @M4ri.BMat.ET.echelonizeM4ri_eq_top
+#check @M4ri.BMat.ET.all_entry_points_agree
+#check @M4ri.BMat.ET.one_le_autoK
+#check @M4ri.BMat.ET.autoK_le_seven
+#check @M4ri.BMat.ET.one_le_autoKTop
+#check @M4ri.BMat.ET.autoK_unrepaired_zero
 
 end M4ri.Props.C02
